@@ -52,22 +52,25 @@ fn gen_case(r: &mut Rng, k: usize) -> Case {
         }
         actors.push(a);
     }
-    // one or two disturbers
-    let n_dist = r.range(1, 2);
-    for _ in 0..n_dist {
-        let a = match r.below(6) {
-            0 => vec![Cmd::Insert("t1".into(), vec![next, next + 1]), Cmd::Compact, Cmd::Vacuum],
-            1 => vec![Cmd::Compact, Cmd::Vacuum],
-            2 => vec![Cmd::Delete("t1".into(), "ge".into(), r.range(1, 4) as i32), Cmd::Compact, Cmd::Vacuum],
-            3 => vec![Cmd::Drop("t1".into()), Cmd::Vacuum],
-            4 => vec![Cmd::Compact, Cmd::Vacuum, Cmd::Compact, Cmd::Vacuum],
-            _ => vec![Cmd::Insert("t1".into(), vec![next]), Cmd::Delete("t1".into(), "eq".into(), 1), Cmd::Compact, Cmd::Vacuum],
-        };
-        next += 2;
-        actors.push(a);
+    // one writer session; there is ONE compactor task and ONE vacuum task in a real database, so
+    // at most one actor issues compaction passes and at most one issues vacuum passes
+    let w = match r.below(6) {
+        0 => vec![Cmd::Insert("t1".into(), vec![next, next + 1])],
+        1 => vec![Cmd::Delete("t1".into(), "ge".into(), r.range(1, 4) as i32)],
+        2 => vec![Cmd::Drop("t1".into())],
+        3 => vec![Cmd::Insert("t1".into(), vec![next]), Cmd::Delete("t1".into(), "eq".into(), 1)],
+        4 => vec![Cmd::Delete("t1".into(), "all".into(), 0)],
+        _ => vec![],
+    };
+    if !w.is_empty() {
+        actors.push(w);
     }
-    if r.chance(1, 2) {
-        actors.push(vec![Cmd::Vacuum, Cmd::Vacuum]);
+    if r.chance(4, 5) {
+        actors.push(if r.chance(1, 3) { vec![Cmd::Compact, Cmd::Compact] } else { vec![Cmd::Compact] });
+    }
+    if r.chance(4, 5) {
+        let n = r.range(1, 3) as usize;
+        actors.push(vec![Cmd::Vacuum; n]);
     }
     Case {
         id: format!("g{k}"),
